@@ -458,3 +458,47 @@ def dot_ring_closures(rng, n):
             a, b = rx.split(">>")
             out.append(("dotring_extra|%d" % i, "%s.%s>>%s" % (a, d, b)))
     return [(t, s) for t, s in out if oracle.in_domain_rsmi(s)]
+
+
+DIMERISATIONS = [
+    ["CC(=O)O.CC(=O)O>>CC(=O)OC(C)=O.O", "CC(=O)O>>CC(=O)[O-].[H+]", "CC(=O)O.CCO>>CC(=O)OCC.O"],
+    ["CCO.CCO>>CCOCC.O", "CCO>>C=C.O", "CCO>>CC=O.[H][H]"],
+    ["CC(C)=O.CC(C)=O>>CC(=O)CC(C)(C)O", "CC(C)=O>>CC(O)=C"],
+    ["CC=O.CC=O>>CC(O)CC=O", "CC=O>>C=CO", "CC=O.CC=O.CC=O>>CC1OC(C)OC(C)O1"],
+    ["CS.CS>>CSSC.[H][H]", "CS>>C[S-].[H+]"],
+    ["C=CC.C=CC>>CC=CC.C=C", "C=CC>>C1CC1"],
+    ["C1=CCC=C1.C1=CCC=C1>>C1=CC2CC1C1C=CCC21", "C1=CCC=C1>>C1=CC=CC1"],
+    ["c1ccccc1C=O.c1ccccc1C=O>>c1ccccc1C(O)C(=O)c1ccccc1", "c1ccccc1C=O>>O=Cc1ccccc1"],
+    ["NCC(=O)O.NCC(=O)O>>NCC(=O)NCC(=O)O.O", "NCC(=O)O>>[NH3+]CC(=O)[O-]"],
+    ["CC#C.CC#C.CC#C>>Cc1cc(C)cc(C)c1", "CC#C>>C=C=C"],
+]
+
+
+def self_reaction_families(rng, n):
+    """families of *balanced* reactions in which the same molecule string occurs with different multiplicities
+    on sides of different rows: curated dimerisations / trimerisations next to unimolecular reactions of the same
+    molecule, and identity reactions A>>A', A.A>>A'.A, A.A.A>>A.A'.A' over a corpus molecule A and a re-spelling A'
+    of it.  Returned as a list of families (lists of (tag, reaction)); every member is balanced by the oracle."""
+    fams = [[("dimer|%d|%d" % (i, j), rx) for j, rx in enumerate(f) if oracle.balanced(rx)]
+            for i, f in enumerate(DIMERISATIONS)]
+    mols = [m for m in corpus.molecules() if "C" in m.upper()]
+    tries = 0
+    while len(fams) < n and tries < 20 * n:
+        tries += 1
+        a = oracle.demap(rng.choice(mols))
+        if a is None or "." in a or not oracle.in_domain_smiles(a):
+            continue
+        m = Chem.MolFromSmiles(a)
+        if m is None or m.GetNumAtoms() > 30 or m.GetNumAtoms() < 2:
+            continue
+        Chem.rdBase.SeedRandomNumberGenerator(rng.randrange(1 << 30))
+        b = Chem.MolToSmiles(m, canonical=False, doRandom=True)
+        if b == a or oracle.frags(b) != oracle.frags(a):
+            continue
+        fam = [("ident|%d|1" % len(fams), "%s>>%s" % (a, b)),
+               ("ident|%d|2" % len(fams), "%s.%s>>%s.%s" % (a, a, b, a)),
+               ("ident|%d|3" % len(fams), "%s.%s.%s>>%s.%s.%s" % (a, a, a, a, b, b)),
+               ("ident|%d|4" % len(fams), "%s.%s>>%s.%s" % (b, b, a, a))]
+        rng.shuffle(fam)
+        fams.append(fam)
+    return [[(t, rx) for t, rx in f if oracle.balanced(rx)] for f in fams[:n]]
